@@ -10,6 +10,7 @@ they are evaluated as invariants after every step of the same runs.
 from __future__ import annotations
 
 import copy
+import re
 import random
 
 import numpy as np
@@ -105,6 +106,22 @@ def _coords(seed, n, na):
 
 class _V(Exception):
     pass
+
+
+def _row(c, mc=None):
+    """Which row of its ensemble a conformer stands for.  The harness does not depend on how Conformer stores that
+    (a rename of a private attribute must not look like a violation): the attribute is tried first, then the public text
+    form `Conformer(name=..., conf_id=N)`, then the row of the model with the conformer's coordinates."""
+    i = getattr(c, "_conf_id", None)
+    if i is None:
+        m = re.search(r"conf_id=(-?\d+)", str(c))
+        if m:
+            i = int(m.group(1))
+    if i is None and mc is not None:
+        for k in range(mc.shape[0]):
+            if np.allclose(np.asarray(c.coords), mc[k], equal_nan=True):
+                return k
+    return i
 
 
 def run_plan(plan, trace=False):
@@ -371,12 +388,12 @@ def _run_plan(plan, trace=False):
                     rr = random.Random(ph["cseed"])
                     a, b = sorted((rr.randrange(nc + 1), rr.randrange(nc + 1)))
                     sl = ens[a:b]
-                    ids = [c._conf_id for c in sl]
+                    ids = [_row(c, mc) for c in sl]
                     if ids != list(range(a, b)):
                         viol("slice-wrong-conformers", f"ens[{a}:{b}] gave conformer ids {ids}")
                     for c in sl:
-                        if not np.allclose(c.coords, mc[c._conf_id], equal_nan=True):
-                            viol("slice-not-a-view-of-its-row", f"ens[{a}:{b}] conformer {c._conf_id} does not show row {c._conf_id}")
+                        if not np.allclose(c.coords, mc[_row(c, mc)], equal_nan=True):
+                            viol("slice-not-a-view-of-its-row", f"ens[{a}:{b}] conformer {_row(c, mc)} does not show row {_row(c, mc)}")
                 if op in ("copy", "rebuild", "reload"):
                     # every ensemble object of the history is recognisable by its atom labels
                     serial[0] += 1
@@ -432,7 +449,7 @@ def _iter_phase(ph, st, res, viol, check_inv, ctx, na, log, ser, deser, msgpack)
             except StopIteration:
                 out.append("stop")
                 return
-            out.append(c._conf_id)
+            out.append(_row(c, st["mc"]))
 
     def restart(tid):
         # abandon an iteration half way, then iterate again from scratch: the second pass must be complete
@@ -463,10 +480,10 @@ def _iter_phase(ph, st, res, viol, check_inv, ctx, na, log, ser, deser, msgpack)
                     b = next(inner)
                 except StopIteration:
                     break
-                ids.append(b._conf_id)
+                ids.append(_row(b, st["mc"]))
                 if len(ids) > nc + 2:
                     break
-            out.append((a._conf_id, tuple(ids)))
+            out.append((_row(a, st["mc"]), tuple(ids)))
             if len(out) > nc + 2:
                 return
 
@@ -480,7 +497,7 @@ def _iter_phase(ph, st, res, viol, check_inv, ctx, na, log, ser, deser, msgpack)
             except StopIteration:
                 out.append("stop")
                 return
-            out.append((a._conf_id, b._conf_id))
+            out.append((_row(a, st["mc"]), _row(b, st["mc"])))
             if len(out) > nc + 2:
                 return
 
@@ -489,10 +506,10 @@ def _iter_phase(ph, st, res, viol, check_inv, ctx, na, log, ser, deser, msgpack)
             yield "mut"
             _mutate(mo, st, res, viol, na, ser, deser, msgpack)
             check_inv(f"after mutator op {mo['op']} during iteration")
-            for v_ in held:
+            for hi_, v_ in enumerate(held):
                 res.stats["probe:held_view_checked_after_mutation"] += 1
-                if not np.allclose(v_.coords, st["mc"][v_._conf_id], rtol=1e-9, atol=1e-9, equal_nan=True):
-                    viol("held-view-is-stale", f"a conformer view of row {v_._conf_id} taken before {mo['op']} no longer shows the ensemble's row")
+                if not np.allclose(v_.coords, st["mc"][hi_], rtol=1e-9, atol=1e-9, equal_nan=True):
+                    viol("held-view-is-stale", f"a conformer view of row {hi_} taken before {mo['op']} no longer shows the ensemble's row")
 
     held = [ens[i] for i in range(nc)]      # long-lived views: they must stay live whatever happens to the ensemble
     st["held"] = held
